@@ -119,19 +119,29 @@ func Metacall(t *Thread, obj Value, method string, args []Value, next Cont) (err
 // metamethod and returns the continuations that needs to be run to get the
 // results.
 func Continue(t *Thread, f Value, next Cont) (Cont, error) {
+	return continueWithDepth(t, f, next, 0)
+}
+
+func continueWithDepth(t *Thread, f Value, next Cont, depth int) (Cont, error) {
 	callable, ok := f.TryCallable()
 	if ok {
 		return callable.Continuation(t, next), nil
 	}
-	cont, err, ok := metacont(t, f, "__call", next)
-	if !ok {
+	if depth >= maxIndexChainLength {
+		return nil, errCallChainTooLong
+	}
+	mf := t.metaGetS(f, "__call")
+	if mf.IsNil() {
 		return nil, fmt.Errorf("attempt to call a %s value", f.CustomTypeName())
 	}
+	cont, err := continueWithDepth(t, mf, next, depth+1)
 	if cont != nil {
 		t.Push1(cont, f)
 	}
 	return cont, err
 }
+
+var errCallChainTooLong = errors.New("'__call' chain too long; possible loop")
 
 // Call calls f with arguments args, pushing the results on next.  It may use
 // the metamethod '__call' if f is not callable.
@@ -139,15 +149,21 @@ func Call(t *Thread, f Value, args []Value, next Cont) error {
 	if f.IsNil() {
 		return errors.New("attempt to call a nil value")
 	}
-	callable, ok := f.TryCallable()
-	if ok {
-		return t.call(callable, args, next)
+	// The '__call' metamethod may itself be a value with a '__call'
+	// metamethod, and so on: follow the chain, but not forever.
+	for depth := 0; depth < maxIndexChainLength; depth++ {
+		callable, ok := f.TryCallable()
+		if ok {
+			return t.call(callable, args, next)
+		}
+		mf := t.metaGetS(f, "__call")
+		if mf.IsNil() {
+			return fmt.Errorf("attempt to call a %s value", f.CustomTypeName())
+		}
+		args = append([]Value{f}, args...)
+		f = mf
 	}
-	err, ok := Metacall(t, f, "__call", append([]Value{f}, args...), next)
-	if ok {
-		return err
-	}
-	return fmt.Errorf("attempt to call a %s value", f.CustomTypeName())
+	return errCallChainTooLong
 }
 
 // Call1 is a convenience method that calls f with arguments args and returns
@@ -465,18 +481,6 @@ func stripFirstLineComment(chunk []byte) ([]byte, bool) {
 		}
 	}
 	return nil, true
-}
-
-func metacont(t *Thread, obj Value, method string, next Cont) (Cont, error, bool) {
-	f := t.metaGetS(obj, method)
-	if f.IsNil() {
-		return nil, nil, false
-	}
-	cont, err := Continue(t, f, next)
-	if err != nil {
-		return nil, err, true
-	}
-	return cont, nil, true
 }
 
 func metabin(t *Thread, f string, x Value, y Value) (Value, error, bool) {
